@@ -17,14 +17,14 @@ TOL = 1e-9
 
 META = {
     "rule": "(a) every single-edge configuration of the C01 alphabets x every information matrix of the Omega alphabet: error and chi2 vs the reference model; "
-    "(b) every multiset of 1..3 (thorough 4) edges from a 12-edge mixed-type alphabet x fixed-flag pattern {none, all, alternating}: Graph.calc_chi2 = sum of reference chi2 (fixed flags must not matter); (c) consistency: exactly-agreeing "
+    "(b) every multiset of 1..3 (thorough 4) edges from a 14-edge mixed-type alphabet (incl. two landmarks seen from one pose through different offsets), and chains with 1..256 edges, x fixed-flag pattern {none, all, alternating}: Graph.calc_chi2 = sum of reference chi2 (fixed flags must not matter); (c) consistency: exactly-agreeing "
     "measurement gives chi2 ~ 0, any physically different alphabet measurement gives chi2 > 0 for SPD Omega; (d) linearity in Omega over Omega^2 x {0.5,2,1e3}^2; "
     "(e) exact rational tier on Hurwitz x dyadic members. non-trivial = error vector has a component with |e| > 1e-9 and the configuration has a non-identity rotation",
     "assumptions": [
         "alphabet members only",
         "reference vf/ref/edges.py, vf/ref/geom.py trusted; SE(3) rotational error accepted up to one global sign per evaluation; SE(2) angular error compared modulo 2 pi and required in [-pi, pi]",
     ],
-    "required_classes": ["single:odo:SE2", "single:odo:SE3", "single:odo:R2", "single:odo:R3", "single:lm:SE2", "single:lm:SE3", "single:lm:R2", "single:lm:R3", "graph", "graph:fixed_vertices", "consistency", "linearity", "exact", "omega:spd", "offset_rotated", "w_negative"],
+    "required_classes": ["single:odo:SE2", "single:odo:SE3", "single:odo:R2", "single:odo:R3", "single:lm:SE2", "single:lm:SE3", "single:lm:R2", "single:lm:R3", "graph", "biggraph", "graph:fixed_vertices", "consistency", "linearity", "exact", "omega:spd", "offset_rotated", "w_negative"],
     "bounds": {"quick": "C01 quick configuration sets x 3 information matrices; edge multisets of size <= 3", "thorough": "C01 thorough sets x 8 information matrices; multisets <= 4"},
 }
 
@@ -32,6 +32,7 @@ META = {
 def chunks(tier, seed):
     out = [("single",) + c for c in c01.chunks(tier, seed)]
     out.append(("graph", None, 0))
+    out.append(("biggraph", None, 0))
     for kind in I.KINDS:
         out.append(("consistency", kind, 0))
         out.append(("linearity", kind, 0))
@@ -79,9 +80,14 @@ def _run_chunk(chunk, tier, seed):
     elif typ == "graph":
         m = 3 if tier == "quick" else 4
         for k in range(1, m + 1):
-            for ms in itertools.combinations_with_replacement(range(12), k):
+            for ms in itertools.combinations_with_replacement(range(14), k):
                 for fx in ("none", "all", "alt"):
                     _do(acc, {"t": "graph", "edges": list(ms), "seed": seed, "fixed": fx})
+    elif typ == "biggraph":
+        # the sum over the edges for edge counts around powers of two (blocked / chunked summation shows only there)
+        for ne in (1, 2, 31, 32, 33, 63, 64, 65, 127, 128, 129, 200, 256):
+            for kind in ("R2", "SE2"):
+                _do(acc, {"t": "biggraph", "kind": kind, "ne": ne, "seed": seed})
     elif typ == "consistency":
         kind = chunk[1]
         ps = A.poses(kind, tier, seed)
@@ -295,6 +301,28 @@ def _eval_inner(case):
             if not min(abs(c2 - r) for r in refs) <= tolc:
                 msgs.append("after replacing the measurement%s on the same edge object, chi2 is %.17g but the reference gives %r (stale intermediate result?)" % (" and the offset" if case["edge"] == "lm" else "", c2, refs))
         return msgs, ratio, nontriv, nops, classes
+    if t == "biggraph":
+        kind, ne = case["kind"], case["ne"]
+        c = I.COMPACT[kind]
+        nv = 7
+        V = [[math.sin(0.9 * i + a) * 2.0 + 0.2 * i for a in range(G.DIM[kind])] + ([0.4 * i - 1.0] if kind == "SE2" else []) for i in range(nv)]
+        verts = [I.Vertex(i, I.mk_pose(kind, V[i])) for i in range(nv)]
+        edges = []
+        tot = 0.0
+        for k in range(ne):
+            a, b = k % nv, (3 * k + 1) % nv
+            if a == b:
+                b = (b + 1) % nv
+            z = [0.3 * math.cos(0.7 * k + q) for q in range(c)]
+            om = A.spd(c, case["seed"], "bg%d" % (k % 11))
+            edges.append(I.EdgeOdometry([a, b], np.array(om, dtype=float), I.mk_pose(kind, z)))
+            tot += R.chi2(R.odometry_error(kind, I.comps(verts[a].pose), I.comps(verts[b].pose), I.comps(I.mk_pose(kind, z))), om)
+        g = I.Graph(edges, verts)
+        got = float(g.calc_chi2())
+        r = abs(got - tot) / (1e-9 * (1.0 + abs(tot)))
+        if r > 1.0:
+            msgs.append("graph with %d edges: calc_chi2 = %.17g but the sum of the reference edge chi2 is %.17g" % (ne, got, tot))
+        return msgs, r, True, 1 + ne, ["biggraph"]
     if t == "graph":
         g, edges, specs = _graph_alphabet(case["seed"], case["edges"])
         fx = case.get("fixed", "none")
@@ -455,6 +483,9 @@ def _graph_alphabet(seed, which):
         ("lm", "R2", 6, 2, {"off": [0.2, 0.4], "z": [1.0, 1.0], "om": om(2, "j")}),
         ("odo", "R3", 5, 7, {"z": [0.1, 0.1, 0.1], "om": om(3, "k")}),
         ("lm", "R3", 7, 5, {"off": [-0.2, 0.1, 0.3], "z": [0.7, -0.7, 0.2], "om": om(3, "l")}),
+        # a second landmark seen from the SAME pose through ANOTHER sensor offset (offset ids are export-only and left at None)
+        ("lm", "SE2", 0, 6, {"off": [-0.3, 0.6, -1.1], "z": [0.2, -0.4], "om": om(2, "m")}),
+        ("lm", "SE3", 3, 7, {"off": [0.4, -0.3, 0.2] + A.unit([-0.2, 0.4, 0.1, 0.8]), "z": [0.1, 0.6, -0.2], "om": om(3, "n")}),
     ]
     verts = {i: I.Vertex(i, I.mk_pose(k, c)) for i, (k, c) in V.items()}
     edges = []
